@@ -286,3 +286,21 @@ ANCHORS = [('swh/model/git_objects.py', 'snapshot_git_object'),
            ('swh/model/model.py', 'SnapshotBranch.check_target'),
            ('swh/model/model.py', 'Snapshot._compute_hash_from_attributes'),
            ('swh/model/model.py', 'Snapshot.from_dict')]
+
+
+def coq_cases(cases):
+    """snap_manifest evaluated by vm_compute inside Coq vs the extracted driver (extraction cross-check)"""
+    from . import core
+    cases = [c for c in cases if len(c["branches"]) <= 8 and all(k is None or k == "alias" or len(t) == 40 for _, k, t in c["branches"])]
+    ty = {"content": "BContent", "directory": "BDirectory", "revision": "BRevision", "release": "BRelease", "snapshot": "BSnapshot", "alias": "BAlias"}
+    def nl(h):
+        return "[" + "; ".join("%d%%N" % b for b in bytes.fromhex(h)) + "]"
+    def coq_branches(bs):
+        return "[" + "; ".join("(%s, %s)" % (nl(n), "None" if k is None else "Some {| b_target := %s; b_type := %s |}" % (nl(t), ty[k]))
+                               for n, k, t in bs) + "]"
+    src = ("From Coq Require Import List NArith.\nFrom SWH.lib Require Import Bytes.\nFrom SWH.model Require Import Snap.\nImport ListNotations.\n" + core.COQ_CHECKSUM +
+           "\nDefinition cases : list branches := [" + ";\n ".join(coq_branches(c["branches"]) for c in cases) + "].\n"
+           "Eval vm_compute in map (fun b => cksum (snap_manifest b)) cases.\n")
+    resp = core.run_driver(ID, ["snap 1 " + enc_branches(c["branches"]) for c in cases])
+    exp = [core.py_cksum(unhx(r.split(" ")[1])) if r.startswith("ok ") else 0 for r in resp]
+    return src, exp
